@@ -1,5 +1,550 @@
 import RSV.Model.Streams
-/-! placeholder replaced by the proved property file -/
+import RSV.Proofs.Streams
+/-!
+# C15 — faults and unequal streams are reported, never accepted
+
+Model: `RSV.Model.St` (`RSV/Model/Streams.lean`); lemmas: `RSV/Proofs/Streams.lean`.
+Readers: `⟨data, some k⟩` fails after delivering `k` more bytes; writers: `⟨got, some k, short⟩` accepts
+`k` more bytes, then fails (`short = true`: `io.ErrShortWrite`).
+Stream `Split` / `Join` return reader / writer errors unwrapped (`rawRead` / `rawWrite _`): this is a
+recorded known finding; the theorems state the exact model outcome.
+-/
 namespace RSV.Props.C15
-theorem C15_placeholder : True := trivial
+open RSV.Model.St RSV.Proofs.Streams
+
+/-! ## 1. reader faults -/
+
+/-- a reader whose fault lies inside the bytes it has to deliver reports an error -/
+theorem C15_readFull_fault (data : List Nat) (k want : Nat) (hk : k < want) (hd : k ≤ data.length) :
+    readFull ⟨data, some k⟩ want = (data.take k, ReadOutcome.error, ⟨data.drop k, some 0⟩) :=
+  readFull_fault data k want hk hd
+
+/-- `readShards`: reader `i` faulty with `k < min B remaining`, all lower-index readers fault-free (or
+nil) with one common remaining length (so that no `ErrShardSize` precedes): `StreamReadError{Stream: i}`.
+`pre` = the contents of the lower-index readers, `rs` = the higher-index readers (arbitrary). -/
+theorem C15_read_error (B n : Nat) (pre : List (Option (List Nat))) (hpre : ∀ s, some s ∈ pre → s.length = n)
+    (data : List Nat) (k : Nat) (hk : k < B) (hk' : k ≤ data.length) (rs : List (Option Rd)) :
+    readShards (List.replicate (pre.length + 1 + rs.length) B)
+      (pre.map (Option.map cleanRd) ++ some ⟨data, some k⟩ :: rs) = .err (.read pre.length) := by
+  have hrep : List.replicate (pre.length + 1 + rs.length) B =
+      List.replicate pre.length B ++ B :: List.replicate rs.length B := by
+    rw [← List.replicate_succ, List.replicate_append_replicate]; congr 1; omega
+  rw [hrep]
+  exact readShardsAux_clean_then_fault B n (LensOK.replicate' B pre) hpre B _
+    (by rw [readFull_fault data k B hk hk']) _ rs
+
+/-- the same when the lower-index readers are arbitrary readers that deliver full blocks -/
+theorem C15_read_error_full (B : Nat) (rp : List (Option Rd))
+    (hfull : ∀ r ∈ rp, ∀ r', r = some r' → (readFull r' B).2.1 = .full)
+    (data : List Nat) (k : Nat) (hk : k < B) (hk' : k ≤ data.length) (rs : List (Option Rd)) :
+    readShards (List.replicate (rp.length + 1 + rs.length) B) (rp ++ some ⟨data, some k⟩ :: rs) =
+      .err (.read rp.length) := by
+  have hrep : List.replicate (rp.length + 1 + rs.length) B =
+      List.replicate rp.length B ++ B :: List.replicate rs.length B := by
+    rw [← List.replicate_succ, List.replicate_append_replicate]; congr 1; omega
+  rw [hrep]
+  refine readShards_full_then_fault _ rp (by simp) ?_ B _ (by rw [readFull_fault data k B hk hk']) _ rs
+  intro q hq r' hr'
+  have h1 : q.1 = B := List.eq_of_mem_replicate (List.of_mem_zip hq).1
+  rw [h1]
+  exact hfull q.2 (List.of_mem_zip hq).2 r' hr'
+
+/-- one-block consequence: `Encode` returns `StreamReadError{Stream: i}`, nothing is written -/
+theorem C15_read_error_encode (C : BlockCodec) (conc : Bool) (B n : Nat) (pre : List (Option (List Nat)))
+    (hpre : ∀ s, some s ∈ pre → s.length = n)
+    (data : List Nat) (k : Nat) (hk : k < B) (hk' : k ≤ data.length) (rs : List (Option Rd))
+    (hd : pre.length + 1 + rs.length = C.d) (writers : List (Option Wr)) (hp : writers.length = C.p) :
+    encode C conc B (pre.map (Option.map cleanRd) ++ some ⟨data, some k⟩ :: rs) writers =
+      ⟨some (.read pre.length), writers⟩ := by
+  have h1 : ¬ (pre.map (Option.map cleanRd) ++ some ⟨data, some k⟩ :: rs).length ≠ C.d := by
+    simp; omega
+  have h2 : ¬ writers.length ≠ C.p := by simp [hp]
+  simp only [encode, h1, h2, if_false]
+  rw [← hd]
+  simp only [encodeLoop, C15_read_error B n pre hpre data k hk hk' rs]
+
+theorem C15_read_error_verify (C : BlockCodec) (B n : Nat) (pre : List (Option (List Nat)))
+    (hpre : ∀ s, some s ∈ pre → s.length = n)
+    (data : List Nat) (k : Nat) (hk : k < B) (hk' : k ≤ data.length) (rs : List (Option Rd))
+    (hd : pre.length + 1 + rs.length = C.d + C.p) :
+    verify C B (pre.map (Option.map cleanRd) ++ some ⟨data, some k⟩ :: rs) = (false, some (.read pre.length)) := by
+  have h1 : ¬ (pre.map (Option.map cleanRd) ++ some ⟨data, some k⟩ :: rs).length ≠ C.d + C.p := by
+    simp; omega
+  simp only [verify, h1, if_false]
+  rw [← hd]
+  simp only [verifyLoop, C15_read_error B n pre hpre data k hk hk' rs]
+
+/-- one-block consequence for `Reconstruct`: `StreamReadError{Stream: i}`, nothing is written -/
+theorem C15_read_error_reconstruct (C : BlockCodec) (conc : Bool) (B n : Nat) (pre : List (Option (List Nat)))
+    (hpre : ∀ s, some s ∈ pre → s.length = n)
+    (data : List Nat) (k : Nat) (hk : k < B) (hk' : k ≤ data.length) (rs : List (Option Rd))
+    (hd : pre.length + 1 + rs.length = C.d + C.p) (fill : List (Option Wr)) (hf : fill.length = C.d + C.p)
+    (hdisj : ((pre.map (Option.map cleanRd) ++ some ⟨data, some k⟩ :: rs).zip fill).any
+      (fun (v, f) => v.isSome && f.isSome) = false) :
+    reconstruct C conc B (pre.map (Option.map cleanRd) ++ some ⟨data, some k⟩ :: rs) fill =
+      ⟨some (.read pre.length), fill⟩ := by
+  have h1 : ¬ (pre.map (Option.map cleanRd) ++ some (⟨data, some k⟩ : Rd) :: rs).length ≠ C.d + C.p := by
+    simp; omega
+  have h2 : ¬ fill.length ≠ C.d + C.p := by simp [hf]
+  simp only [reconstruct, h1, h2, if_false, hdisj, Bool.false_eq_true]
+  rw [← hd]
+  simp only [reconLoop, C15_read_error B n pre hpre data k hk hk' rs]
+
+/-- whatever the lengths: `Encode` never succeeds, `Verify` never says `(true, none)` -/
+theorem C15_read_error_never_ok (C : BlockCodec) (conc : Bool) (B n : Nat) (pre : List (Option (List Nat)))
+    (hpre : ∀ s, some s ∈ pre → s.length = n)
+    (data : List Nat) (k : Nat) (hk : k < B) (hk' : k ≤ data.length) (rs : List (Option Rd))
+    (writers : List (Option Wr)) :
+    (encode C conc B (pre.map (Option.map cleanRd) ++ some ⟨data, some k⟩ :: rs) writers).err ≠ none ∧
+    verify C B (pre.map (Option.map cleanRd) ++ some ⟨data, some k⟩ :: rs) ≠ (true, none) := by
+  have hlen : (pre.map (Option.map cleanRd) ++ some (⟨data, some k⟩ : Rd) :: rs).length = pre.length + 1 + rs.length := by
+    simp; omega
+  constructor
+  · unfold encode
+    split
+    · simp
+    · split
+      · simp
+      · rename_i h _
+        rw [← Decidable.not_not.1 h, hlen]
+        simp only [encodeLoop, C15_read_error B n pre hpre data k hk hk' rs]
+        simp
+  · unfold verify
+    split
+    · simp
+    · rename_i h
+      rw [← Decidable.not_not.1 h, hlen]
+      simp only [verifyLoop, C15_read_error B n pre hpre data k hk hk' rs]
+      simp
+
+/-- the fault may lie in any block: `d` streams of one length `n`, reader `i` faulty at position `k < n`,
+fault-free parity writers (having accepted `gs`), `C.encode` yields `C.p` rows: `Encode` ends with
+`StreamReadError{Stream: i}` -/
+theorem C15_read_error_encode_any (C : BlockCodec) (hC : EncLocal C) (conc : Bool) (B n k : Nat) (hB : 1 ≤ B)
+    (hk : k < n) (pre post : List (List Nat)) (data : List Nat) (hd : pre.length + 1 + post.length = C.d)
+    (hpre : ∀ s ∈ pre, s.length = n) (hpost : ∀ s ∈ post, s.length = n) (hdata : data.length = n)
+    (gs : List (List Nat)) (hp : gs.length = C.p) :
+    (encode C conc B ((pre.map fun s => some (cleanRd s)) ++ some ⟨data, some k⟩ :: post.map fun s => some (cleanRd s))
+      (gs.map fun g => some (wrOf g))).err = some (.read pre.length) := by
+  show (encode C conc B (cl pre ++ some ⟨data, some k⟩ :: cl post) (pw gs)).err = _
+  have h1 : ¬ (cl pre ++ some (⟨data, some k⟩ : Rd) :: cl post).length ≠ C.d := by simp [cl]; omega
+  have h2 : ¬ (pw gs).length ≠ C.p := by simp [pw, hp]
+  have htot : k ≤ ((cl pre ++ some (⟨data, some k⟩ : Rd) :: cl post).filterMap id).foldl
+      (fun m r => max m r.data.length) 0 := by
+    have := (foldl_max_ge ((cl pre ++ some (⟨data, some k⟩ : Rd) :: cl post).filterMap id) 0).2 ⟨data, some k⟩
+      (by rw [List.mem_filterMap]; exact ⟨some ⟨data, some k⟩, by simp, rfl⟩)
+    simp only at this
+    omega
+  have hfuel := Nat.div_le_div_right (c := B) htot
+  simp only [encode, h1, h2, if_false]
+  rw [← hd]
+  exact encodeLoop_fault C hC conc _ B n k hB hk (by omega) pre post data hd hpre hpost hdata gs hp 0
+
+/-- `Verify` with a reader fault anywhere: the verdict is `false` (with `StreamReadError{Stream: i}`, or
+without error if an inconsistent block came first) — never `(true, none)` -/
+theorem C15_read_error_verify_any (C : BlockCodec) (B n k : Nat) (hB : 1 ≤ B)
+    (hk : k < n) (pre post : List (List Nat)) (data : List Nat)
+    (hpre : ∀ s ∈ pre, s.length = n) (hpost : ∀ s ∈ post, s.length = n) (hdata : data.length = n) :
+    (verify C B ((pre.map fun s => some (cleanRd s)) ++ some ⟨data, some k⟩ :: post.map fun s => some (cleanRd s))).1
+      = false := by
+  show (verify C B (cl pre ++ some ⟨data, some k⟩ :: cl post)).1 = false
+  unfold verify
+  split
+  · rfl
+  · rename_i h
+    have hl : (cl pre ++ some (⟨data, some k⟩ : Rd) :: cl post).length = pre.length + 1 + post.length := by
+      simp [cl]; omega
+    rw [← Decidable.not_not.1 h, hl]
+    rcases verifyLoop_fault C
+      ((((cl pre ++ some (⟨data, some k⟩ : Rd) :: cl post).filterMap id).foldl
+        (fun m r => max m r.data.length) 0) / B + 3) B n k hB hk pre post data hpre hpost hdata 0 with h | h | h <;>
+      rw [h]
+
+/-! ## 2. writer faults -/
+
+/-- sequential `writeShards`: fault-free (or nil) writers, then writer `j` whose limit `k` is below the
+length of its block: `StreamWriteError{Stream: j}` (`short` = `io.ErrShortWrite`); writer `j` keeps the
+`k` bytes it accepted, the later writers receive nothing -/
+theorem C15_write_error_seq (pre : List (Option (List Nat))) (bpre : List (List Nat)) (hpre : pre.length = bpre.length)
+    (g : List Nat) (k : Nat) (short : Bool) (b : List Nat) (hk : k < b.length)
+    (rest : List (Option Wr)) (bpost : List (List Nat)) :
+    writeShards false (pre.map (Option.map wrOf) ++ some ⟨g, some k, short⟩ :: rest) (bpre ++ b :: bpost) 0 [] =
+      ((List.zipWith (fun og b => og.map (· ++ b)) pre bpre).map (Option.map wrOf) ++
+          some ⟨g ++ b.take k, some 0, short⟩ :: rest,
+       some (.write pre.length short)) :=
+  writeShards_seq_limit pre bpre hpre g k short b hk rest bpost
+
+/-- concurrent `writeShards`: every other (fault-free) writer still receives its block -/
+theorem C15_write_error_conc (pre : List (Option (List Nat))) (bpre : List (List Nat)) (hpre : pre.length = bpre.length)
+    (g : List Nat) (k : Nat) (short : Bool) (b : List Nat) (hk : k < b.length)
+    (post : List (Option (List Nat))) (bpost : List (List Nat)) (hpost : post.length = bpost.length) :
+    writeShards true (pre.map (Option.map wrOf) ++ some ⟨g, some k, short⟩ :: post.map (Option.map wrOf))
+        (bpre ++ b :: bpost) 0 [] =
+      ((List.zipWith (fun og b => og.map (· ++ b)) pre bpre).map (Option.map wrOf) ++
+          some ⟨g ++ b.take k, some 0, short⟩ ::
+          (List.zipWith (fun og b => og.map (· ++ b)) post bpost).map (Option.map wrOf),
+       some (.write pre.length short)) :=
+  writeShards_conc_limit pre bpre hpre g k short b hk post bpost hpost
+
+/-- `io.ErrShortWrite` is the case `short = true` -/
+theorem C15_short_write (conc : Bool) (pre : List (Option (List Nat))) (bpre : List (List Nat))
+    (hpre : pre.length = bpre.length) (g : List Nat) (k : Nat) (b : List Nat) (hk : k < b.length)
+    (post : List (Option (List Nat))) (bpost : List (List Nat)) (hpost : post.length = bpost.length) :
+    (writeShards conc (pre.map (Option.map wrOf) ++ some ⟨g, some k, true⟩ :: post.map (Option.map wrOf))
+        (bpre ++ b :: bpost) 0 []).2 = some (.write pre.length true) := by
+  cases conc
+  · exact congrArg Prod.snd (writeShards_seq_limit pre bpre hpre g k true b hk _ bpost)
+  · exact congrArg Prod.snd (writeShards_conc_limit pre bpre hpre g k true b hk post bpost hpost)
+
+/-- the encode loop returns the writer's error (not success): equal-length fault-free streams, parity
+writer `j` (all lower ones fault-free) with a limit below the block length -/
+theorem C15_write_error_encodeLoop (C : BlockCodec) (conc : Bool) (fuel B n : Nat) (hn : 0 < n)
+    (ss : List (List Nat)) (hne : ss ≠ []) (hlen : ∀ s ∈ ss, s.length = n)
+    (pre : List (Option (List Nat))) (g : List Nat) (k : Nat) (short : Bool) (post : List (Option (List Nat)))
+    (hpar : (C.encode (ss.map (List.take B))).length = pre.length + 1 + post.length)
+    (hrow : ∀ r ∈ C.encode (ss.map (List.take B)), r.length = min B n) (hk : k < min B n) (read : Nat) :
+    (encodeLoop C conc (fuel + 1) (List.replicate ss.length B) (ss.map fun s => some (cleanRd s))
+      (pre.map (Option.map wrOf) ++ some ⟨g, some k, short⟩ :: post.map (Option.map wrOf)) read).err =
+      some (.write pre.length short) := by
+  show (encodeLoop C conc (fuel + 1) _ (cl ss) _ read).err = _
+  have hread : readShards (List.replicate ss.length B) (cl ss) =
+      .ok (ss.map (List.take B)) (cl (ss.map (List.drop B))) := by
+    by_cases hBn : B ≤ n
+    · exact readShards_cl_full B ss (fun s hs => by rw [hlen s hs]; exact hBn)
+    · exact readShards_cl_short B n (by omega) hn ss hlen
+  have hbl : ∀ b ∈ ss.map (List.take B), b.length = min B n := by
+    intro b hb
+    obtain ⟨s, hs, rfl⟩ := List.mem_map.1 hb
+    simp [hlen s hs]
+  have hm : 0 < min B n := by omega
+  have hne' : ss.map (List.take B) ≠ [] := by
+    intro h; rw [List.map_eq_nil_iff] at h; exact hne h
+  have hsz : shardSize (ss.map (List.take B)) = min B n := shardSize_all _ hm _ hne' hbl
+  have hany : ((ss.map (List.take B)).any fun b => decide (b.length ≠ min B n)) = false := by
+    rw [List.any_eq_false]
+    intro b hb
+    simp [hbl b hb]
+  have hm0 : ¬ min B n = 0 := by omega
+  -- split the parity rows
+  obtain ⟨bpre, b, bpost, hsplit, hl1, hl2⟩ : ∃ bpre b bpost, C.encode (ss.map (List.take B)) = bpre ++ b :: bpost ∧
+      pre.length = bpre.length ∧ post.length = bpost.length := by
+    have hlt : pre.length < (C.encode (ss.map (List.take B))).length := by omega
+    refine ⟨(C.encode (ss.map (List.take B))).take pre.length, (C.encode (ss.map (List.take B)))[pre.length],
+      (C.encode (ss.map (List.take B))).drop (pre.length + 1), ?_, ?_, ?_⟩
+    · rw [List.getElem_cons_drop, List.take_append_drop]
+    · simp; omega
+    · simp; omega
+  have hb : k < b.length := by
+    rw [hrow b (by rw [hsplit]; simp)]; exact hk
+  simp only [encodeLoop, hread, hsz, hm0, if_false, hany, hsplit]
+  cases conc
+  · have := writeShards_seq_limit pre bpre hl1 g k short b hb (wsOf post) bpost
+    simp only [wsOf] at this
+    simp [this]
+  · have := writeShards_conc_limit pre bpre hl1 g k short b hb post bpost hl2
+    simp only [wsOf] at this
+    simp [this]
+
+/-! ## 3. streams of unequal length -/
+
+/-- key lemma: two fault-free streams that would deliver blocks of different lengths (one a full block
+and one not — also when the shorter one ends exactly on the block boundary, delivering 0 bytes —, or two
+different partial blocks): `ErrShardSize` -/
+theorem C15_readShards_unequal (B : Nat) (ss : List (List Nat))
+    (h : ∃ s ∈ ss, ∃ s' ∈ ss, min B s.length ≠ min B s'.length) :
+    readShards (List.replicate ss.length B) (ss.map fun s => some (cleanRd s)) = .err .shardSize := by
+  show readShards _ (cl ss) = _
+  obtain ⟨s, hs, s', hs', hne⟩ := h
+  rcases readShards_cl_inv B ss with h | ⟨_, h0⟩ | ⟨_, hfull | ⟨m, _, hm⟩⟩
+  · exact h
+  · rw [h0 s hs, h0 s' hs'] at hne; exact absurd rfl hne
+  · have := hfull s hs; have := hfull s' hs'; omega
+  · have := (hm s hs).1; have := (hm s' hs').1; omega
+
+/-- so `readShards` returns `.ok` / `.eof` only if all `min B remaining` are equal -/
+theorem C15_readShards_ok_equal (B : Nat) (ss : List (List Nat))
+    (h : readShards (List.replicate ss.length B) (ss.map fun s => some (cleanRd s)) ≠ .err .shardSize) :
+    ∀ s ∈ ss, ∀ s' ∈ ss, min B s.length = min B s'.length := by
+  intro s hs s' hs'
+  apply Decidable.by_contra
+  intro hne
+  exact h (C15_readShards_unequal B ss ⟨s, hs, s', hs', hne⟩)
+
+/-- `Encode` on fault-free streams succeeds only if all streams have the same length — whatever the
+block size, the codec and the writers, and wherever the shorter stream ends -/
+theorem C15_unequal (C : BlockCodec) (conc : Bool) (B : Nat) (streams : List (List Nat))
+    (writers : List (Option Wr)) :
+    (encode C conc B (streams.map fun s => some (cleanRd s)) writers).err = none →
+    ∀ s ∈ streams, ∀ s' ∈ streams, s.length = s'.length := by
+  show (encode C conc B (cl streams) writers).err = none → _
+  intro h
+  unfold encode at h
+  split at h
+  · simp at h
+  · rename_i hd
+    split at h
+    · simp at h
+    · have hd' : C.d = streams.length := by simpa [cl] using (Decidable.not_not.1 hd).symm
+      rw [hd'] at h
+      exact encodeLoop_none_equal C conc _ B streams writers 0 h
+
+theorem C15_unequal_verify (C : BlockCodec) (B : Nat) (streams : List (List Nat)) :
+    verify C B (streams.map fun s => some (cleanRd s)) = (true, none) →
+    ∀ s ∈ streams, ∀ s' ∈ streams, s.length = s'.length := by
+  show verify C B (cl streams) = (true, none) → _
+  intro h
+  unfold verify at h
+  split at h
+  · simp at h
+  · rename_i hd
+    have hd' : C.d + C.p = streams.length := by simpa [cl] using (Decidable.not_not.1 hd).symm
+    rw [hd'] at h
+    exact verifyLoop_true_equal C _ B streams 0 h
+
+
+/-! ## 4. / 5. / 6. stream `Split` / `Join` -/
+
+/-- the source ends before `size` bytes: `ErrShortData` -/
+theorem C15_split_short (d p : Nat) (data : List Nat) (size : Nat) (hlt : data.length < size)
+    (gs : List (List Nat)) (hg : gs.length = d) :
+    (split d p ⟨data, none⟩ (gs.map fun g => some (wrOf g)) size).err = some .shortData := by
+  show (split d p ⟨data, none⟩ (pw gs) size).err = _
+  have h0 : ¬ size = 0 := by omega
+  have h1 : ¬ (pw gs).length ≠ d := by simp [pw, hg]
+  have h2 : ¬ size ≤ data.length := by omega
+  have hgot : (data.take size).length ≠ size := by simp; omega
+  simp only [split, h0, h1, if_false, findIdx?_pw, readFull_clean, h2]
+  have := split_go_short size ((size + d - 1) / d) (data.take size)
+    (if data = [] then ReadOutcome.eof else ReadOutcome.unexpectedEOF) hgot gs
+  rw [this]
+  split <;> simp
+
+/-- the source holds more than `size` bytes: nothing beyond position `size` reaches a writer — the
+writers receive the `perShard`-blocks of `data.take size ++ zeros`, whose concatenation is
+`data.take size ++ zeros (d*ps - size)` -/
+theorem C15_split_surplus (d p : Nat) (hd : 0 < d) (data : List Nat) (size : Nat) (hs : 0 < size)
+    (hlen : size ≤ data.length) (ps : Nat) (hps : ps = (size + d - 1) / d) :
+    split d p ⟨data, none⟩ (List.replicate d (some cleanWr)) size =
+      ⟨none, (blocksOf ps d (data.take size ++ List.replicate ((d + p) * ps - size) 0)).map
+        fun b => some ⟨b, none, false⟩⟩ ∧
+    (blocksOf ps d (data.take size ++ List.replicate ((d + p) * ps - size) 0)).flatten =
+      data.take size ++ List.replicate (d * ps - size) 0 := by
+  subst hps
+  have hpw : List.replicate d (some cleanWr) = pw (List.replicate d []) := by simp [pw, wrOf, cleanWr]
+  constructor
+  · rw [hpw, split_clean d p hd data size hs hlen _ (by simp), zipWith_nil_left d _ (blocksOf_length ..)]
+    simp [pw, wrOf]
+  · have hl : (data.take size).length = size := by simp; omega
+    have hceil := le_mul_ceil size d hd
+    have hmul : (d + p) * ((size + d - 1) / d) = d * ((size + d - 1) / d) + p * ((size + d - 1) / d) :=
+      Nat.add_mul ..
+    rw [blocksOf_flatten, List.take_append, List.take_of_length_le (by rw [hl]; exact hceil),
+      List.take_replicate, hl]
+    congr 2
+    omega
+
+/-- `Join`: the first `d` fault-free streams hold fewer than `outSize` bytes: everything is copied,
+then `ErrShortData` -/
+theorem C15_join_short (d : Nat) (g : List Nat) (ss : List (List Nat)) (hd : ss.length = d)
+    (extra : List (Option Rd)) (outSize : Nat) (hlt : ss.flatten.length < outSize) :
+    join d (wrOf g) ((ss.map fun s => some (cleanRd s)) ++ extra) outSize =
+      (some .shortData, wrOf (g ++ ss.flatten)) := by
+  have := join_clean d g ss hd extra outSize
+  simp only [cl] at this
+  rw [this, List.take_of_length_le (by omega), if_pos hlt]
+
+/-- a nil shard among the first `d`: `StreamReadError{ErrShardNoData, Stream: i}`, nothing written -/
+theorem C15_join_nil (d : Nat) (dst : Wr) (pre : List Rd) (rest : List (Option Rd)) (outSize : Nat)
+    (hi : pre.length < d) (hd : d ≤ pre.length + 1 + rest.length) :
+    join d dst (pre.map some ++ none :: rest) outSize = (some (.readNoData pre.length), dst) := by
+  have h1 : ¬ (pre.map some ++ none :: rest).length < d := by simp; omega
+  have h2 : (pre.map some ++ none :: rest).take d = pre.map some ++ none :: rest.take (d - pre.length - 1) := by
+    rw [List.take_append]
+    have : d - (pre.map some).length = (d - pre.length - 1) + 1 := by simp; omega
+    rw [this, List.take_succ_cons, List.take_of_length_le (by simp; omega)]
+  have h3 : (pre.map some ++ none :: rest.take (d - pre.length - 1)).findIdx? Option.isNone = some pre.length := by
+    rw [List.findIdx?_append]
+    have : (pre.map some).findIdx? Option.isNone = none := by
+      apply findIdx?_isNone_eq_none
+      intro x hx
+      obtain ⟨r, _, rfl⟩ := List.mem_map.1 hx
+      rfl
+    simp [this, List.findIdx?_cons]
+  simp only [join, h1, if_false, h2, h3]
+
+theorem C15_join_too_few (d : Nat) (dst : Wr) (shards : List (Option Rd)) (outSize : Nat)
+    (h : shards.length < d) : join d dst shards outSize = (some .tooFewShards, dst) := by
+  simp [join, h]
+
+/-- `Split`, reader fault before `size` bytes: the reader's own error comes back unwrapped
+(`rawRead`; known finding: not a `StreamReadError`) — never success -/
+theorem C15_never_ok_split_read (d p : Nat) (data : List Nat) (k size : Nat) (hk : k < size)
+    (hk' : k ≤ data.length) (gs : List (List Nat)) (hg : gs.length = d) :
+    (split d p ⟨data, some k⟩ (gs.map fun g => some (wrOf g)) size).err = some .rawRead := by
+  show (split d p ⟨data, some k⟩ (pw gs) size).err = _
+  have h0 : ¬ size = 0 := by omega
+  have h1 : ¬ (pw gs).length ≠ d := by simp [pw, hg]
+  have hgot : (data.take k).length ≠ size := by simp; omega
+  simp only [split, h0, h1, if_false, findIdx?_pw, readFull_fault data k size hk hk']
+  rw [split_go_short size ((size + d - 1) / d) (data.take k) .error hgot gs]
+  simp
+
+/-- `Split`, writer `j` (lower ones fault-free, no nil writer) accepts fewer than `perShard` bytes:
+the writer's own error / `io.ErrShortWrite` comes back unwrapped (`rawWrite`) -/
+theorem C15_never_ok_split_write (d p : Nat) (data : List Nat) (size : Nat) (hs : 0 < size)
+    (hlen : size ≤ data.length) (pre : List (List Nat)) (g : List Nat) (k : Nat) (short : Bool) (post : List Wr)
+    (hd : pre.length + 1 + post.length = d) (hk : k < (size + d - 1) / d) :
+    (split d p ⟨data, none⟩ ((pre.map fun g => some (wrOf g)) ++ some ⟨g, some k, short⟩ :: post.map some) size).err =
+      some (.rawWrite short) := by
+  show (split d p ⟨data, none⟩ (pw pre ++ _) size).err = _
+  have hd0 : 0 < d := by omega
+  have h0 : ¬ size = 0 := by omega
+  have h1 : ¬ (pw pre ++ some (⟨g, some k, short⟩ : Wr) :: post.map some).length ≠ d := by simp [pw]; omega
+  have hfind : (pw pre ++ some (⟨g, some k, short⟩ : Wr) :: post.map some).findIdx? Option.isNone = none := by
+    apply findIdx?_isNone_eq_none
+    intro x hx
+    rcases List.mem_append.1 hx with hx | hx
+    · obtain ⟨_, _, rfl⟩ := List.mem_map.1 hx; rfl
+    · rcases List.mem_cons.1 hx with rfl | hx
+      · rfl
+      · obtain ⟨_, _, rfl⟩ := List.mem_map.1 hx; rfl
+  have hceil := le_mul_ceil size d hd0
+  have hmul : (d + p) * ((size + d - 1) / d) = d * ((size + d - 1) / d) + p * ((size + d - 1) / d) := Nat.add_mul ..
+  have hmul2 : d * ((size + d - 1) / d) =
+      pre.length * ((size + d - 1) / d) + (size + d - 1) / d + post.length * ((size + d - 1) / d) := by
+    rw [← hd, Nat.add_mul, Nat.add_mul, Nat.one_mul]
+  have hl : (data.take size).length = size := by simp; omega
+  have hav : pre.length * ((size + d - 1) / d) + (size + d - 1) / d ≤
+      (data.take size ++ List.replicate ((d + p) * ((size + d - 1) / d) - size) 0).length := by
+    simp only [List.length_append, hl, List.length_replicate]
+    omega
+  simp only [split, h0, h1, if_false, hfind, readFull_clean, hlen, if_true]
+  simp only [show ¬ (ReadOutcome.full = ReadOutcome.error) by simp, if_false]
+  rw [split_go_prefix _ _ _ _ pre _ _ _ _ (by omega)]
+  have hchunk : k < (List.take ((size + d - 1) / d) (List.drop (pre.length * ((size + d - 1) / d))
+      (data.take size ++ List.replicate ((d + p) * ((size + d - 1) / d) - size) 0))).length := by
+    simp only [List.length_take, List.length_drop]
+    omega
+  simp only [split.go, writeTo_limit g k short _ hchunk]
+
+/-- `Join`, reader `i` (lower ones fault-free, all `d` present) faults before `outSize` bytes are
+gathered: what was read is written, the reader's own error comes back unwrapped (`rawRead`) -/
+theorem C15_never_ok_join_read (d : Nat) (g : List Nat) (pre : List (List Nat)) (data : List Nat) (k : Nat)
+    (post : List Rd) (extra : List (Option Rd)) (outSize : Nat)
+    (hd : pre.length + 1 + post.length = d) (hk : pre.flatten.length + k < outSize) (hk' : k ≤ data.length) :
+    join d (wrOf g) ((pre.map fun s => some (cleanRd s)) ++ some ⟨data, some k⟩ :: (post.map some ++ extra)) outSize =
+      (some .rawRead, wrOf (g ++ pre.flatten ++ data.take k)) := by
+  show join d (wrOf g) (cl pre ++ _) outSize = _
+  have h1 : ¬ (cl pre ++ some (⟨data, some k⟩ : Rd) :: (post.map some ++ extra)).length < d := by
+    simp [cl]; omega
+  have h2 : (cl pre ++ some (⟨data, some k⟩ : Rd) :: (post.map some ++ extra)).take d =
+      cl pre ++ some ⟨data, some k⟩ :: post.map some := by
+    have : d = (cl pre ++ some (⟨data, some k⟩ : Rd) :: post.map some).length := by simp [cl]; omega
+    rw [this, ← List.take_left (l₁ := cl pre ++ some (⟨data, some k⟩ : Rd) :: post.map some) (l₂ := extra)]
+    simp
+  have hfind : (cl pre ++ some (⟨data, some k⟩ : Rd) :: post.map some).findIdx? Option.isNone = none := by
+    apply findIdx?_isNone_eq_none
+    intro x hx
+    rcases List.mem_append.1 hx with hx | hx
+    · obtain ⟨_, _, rfl⟩ := List.mem_map.1 hx; rfl
+    · rcases List.mem_cons.1 hx with rfl | hx
+      · rfl
+      · obtain ⟨_, _, rfl⟩ := List.mem_map.1 hx; rfl
+  have hneed : ¬ outSize - pre.flatten.length = 0 := by omega
+  simp only [join, h1, if_false, h2, hfind, gather_prefix pre _ [] outSize (by omega), join.gather, hneed,
+    readFull_fault data k _ (show k < outSize - pre.flatten.length by omega) hk', if_true, List.nil_append,
+    writeTo_wrOf]
+  simp
+
+/-- `Join`, the destination accepts fewer bytes than must be written: `rawWrite` -/
+theorem C15_never_ok_join_write (d : Nat) (g : List Nat) (k : Nat) (short : Bool) (ss : List (List Nat))
+    (hd : ss.length = d) (extra : List (Option Rd)) (outSize : Nat)
+    (hk : k < min outSize ss.flatten.length) :
+    join d ⟨g, some k, short⟩ ((ss.map fun s => some (cleanRd s)) ++ extra) outSize =
+      (some (.rawWrite short), ⟨g ++ (ss.flatten.take outSize).take k, some 0, short⟩) := by
+  show join d _ (cl ss ++ extra) outSize = _
+  have h1 : ¬ (cl ss ++ extra).length < d := by simp [cl, hd]
+  have h2 : (cl ss ++ extra).take d = cl ss := by
+    have : (cl ss).length = d := by simp [cl, hd]
+    rw [← this, List.take_left]
+  have hb : k < (ss.flatten.take outSize).length := by rw [List.length_take]; exact hk
+  simp only [join, h1, if_false, h2, findIdx?_cl, gather_clean, List.nil_append, writeTo_limit g k short _ hb]
+
+
+/-! ## non-vacuity: concrete runs (2 data + 1 xor parity toy codec `toy`, block size 2) -/
+
+/-- an instance of the any-block reader-fault theorem -/
+example : (encode toy false 2 [some (cleanRd [1, 2, 3, 4, 5]), some ⟨[6, 7, 8, 9, 10], some 3⟩] [some (wrOf [])]).err
+    = some (.read 1) :=
+  C15_read_error_encode_any toy toy_encLocal false 2 5 3 (by decide) (by decide) [[1, 2, 3, 4, 5]] [] [6, 7, 8, 9, 10]
+    rfl (by decide) (by decide) rfl [[]] rfl
+example : encode toy false 2 [some (cleanRd [1, 2, 3, 4, 5]), some ⟨[6, 7, 8, 9, 10], some 3⟩] [some cleanWr]
+    = ⟨some (.read 1), [some ⟨[7, 5], none, false⟩]⟩ := by decide
+example : verify toy 2 [some (cleanRd [1, 2, 3, 4, 5]), some ⟨[6, 7, 8, 9, 10], some 3⟩, some (cleanRd [7, 5, 11, 13, 15])]
+    = (false, some (.read 1)) := by decide
+example : encode toy false 2 [some (cleanRd [1, 2, 3, 4, 5]), some (cleanRd [6, 7, 8, 9, 10])] [some ⟨[], some 3, true⟩]
+    = ⟨some (.write 0 true), [some ⟨[7, 5, 11], some 0, true⟩]⟩ := by decide
+example : encode toy true 2 [some (cleanRd [1, 2, 3, 4, 5]), some (cleanRd [6, 7, 8, 9, 10])] [some ⟨[], some 3, false⟩]
+    = ⟨some (.write 0 false), [some ⟨[7, 5, 11], some 0, false⟩]⟩ := by decide
+example : writeShards false [some (wrOf []), some ⟨[], some 1, true⟩, some (wrOf [])] [[1, 2], [3, 4], [5, 6]] 0 []
+    = ([some (wrOf [1, 2]), some ⟨[3], some 0, true⟩, some (wrOf [])], some (.write 1 true)) := by decide
+example : writeShards true [some (wrOf []), some ⟨[], some 1, true⟩, some (wrOf [])] [[1, 2], [3, 4], [5, 6]] 0 []
+    = ([some (wrOf [1, 2]), some ⟨[3], some 0, true⟩, some (wrOf [5, 6])], some (.write 1 true)) := by decide
+/-- the shorter stream ends exactly on a block boundary (4 = 2·2) next to a longer one -/
+example : encode toy true 2 [some (cleanRd [1, 2, 3, 4]), some (cleanRd [6, 7, 8, 9, 10])] [some cleanWr]
+    = ⟨some .shardSize, [some ⟨[7, 5, 11, 13], none, false⟩]⟩ := by decide
+/-- the shorter stream ends inside a block -/
+example : encode toy false 2 [some (cleanRd [1, 2, 3, 4, 5]), some (cleanRd [6, 7, 8])] [some cleanWr]
+    = ⟨some .shardSize, [some ⟨[7, 5], none, false⟩]⟩ := by decide
+example : encode toy false 2 [some (cleanRd [1, 2, 3, 4, 5]), some (cleanRd [])] [some cleanWr]
+    = ⟨some .shardSize, [some cleanWr]⟩ := by decide
+example : verify toy 2 [some (cleanRd [1, 2, 3, 4]), some (cleanRd [6, 7, 8, 9]), some (cleanRd [7, 5, 11, 13, 15])]
+    = (false, some .shardSize) := by decide
+example : split 2 1 ⟨[1, 2, 3], none⟩ [some cleanWr, some cleanWr] 5
+    = ⟨some .shortData, [some ⟨[1, 2, 3], none, false⟩, some ⟨[0, 0, 0], none, false⟩]⟩ := by decide
+example : split 2 1 ⟨[1, 2, 3, 4, 5, 6, 7], none⟩ [some cleanWr, some cleanWr] 5
+    = ⟨none, [some ⟨[1, 2, 3], none, false⟩, some ⟨[4, 5, 0], none, false⟩]⟩ := by decide
+example : join 2 cleanWr [some (cleanRd [1, 2, 3]), some (cleanRd [4, 5, 0])] 7
+    = (some .shortData, ⟨[1, 2, 3, 4, 5, 0], none, false⟩) := by decide
+example : join 2 cleanWr [some (cleanRd [1, 2, 3]), none, some (cleanRd [4, 5, 0])] 5
+    = (some (.readNoData 1), cleanWr) := by decide
+example : join 3 cleanWr [some (cleanRd [1, 2, 3]), some (cleanRd [4, 5, 0])] 5
+    = (some .tooFewShards, cleanWr) := by decide
+example : split 2 1 ⟨[1, 2, 3, 4, 5], some 4⟩ [some cleanWr, some cleanWr] 5
+    = ⟨some .rawRead, [some ⟨[1, 2, 3], none, false⟩, some ⟨[4], none, false⟩]⟩ := by decide
+example : split 2 1 ⟨[1, 2, 3, 4, 5], none⟩ [some cleanWr, some ⟨[], some 1, true⟩] 5
+    = ⟨some (.rawWrite true), [some ⟨[1, 2, 3], none, false⟩, some ⟨[4], some 0, true⟩]⟩ := by decide
+example : join 2 cleanWr [some (cleanRd [1, 2, 3]), some ⟨[4, 5, 0], some 1⟩] 5
+    = (some .rawRead, ⟨[1, 2, 3, 4], none, false⟩) := by decide
+example : join 2 ⟨[], some 4, false⟩ [some (cleanRd [1, 2, 3]), some (cleanRd [4, 5, 0])] 5
+    = (some (.rawWrite false), ⟨[1, 2, 3, 4], some 0, false⟩) := by decide
+
+/-! ## axioms -/
+#print axioms C15_readFull_fault
+#print axioms C15_read_error
+#print axioms C15_read_error_full
+#print axioms C15_read_error_encode
+#print axioms C15_read_error_verify
+#print axioms C15_read_error_reconstruct
+#print axioms C15_read_error_never_ok
+#print axioms C15_read_error_encode_any
+#print axioms C15_read_error_verify_any
+#print axioms C15_write_error_seq
+#print axioms C15_write_error_conc
+#print axioms C15_short_write
+#print axioms C15_write_error_encodeLoop
+#print axioms C15_readShards_unequal
+#print axioms C15_readShards_ok_equal
+#print axioms C15_unequal
+#print axioms C15_unequal_verify
+#print axioms C15_split_short
+#print axioms C15_split_surplus
+#print axioms C15_join_short
+#print axioms C15_join_nil
+#print axioms C15_join_too_few
+#print axioms C15_never_ok_split_read
+#print axioms C15_never_ok_split_write
+#print axioms C15_never_ok_join_read
+#print axioms C15_never_ok_join_write
+
 end RSV.Props.C15
